@@ -352,6 +352,7 @@ func c11Case(env *Env, tape *sim.Tape) *CaseOut {
 		cfg = append(cfg, fmt.Sprintf("%s[%s:%s]", s.Ctx, s.MT, modeNames[modes[s.MT]]))
 	}
 	out.Key = HashOf(h.Doc, strings.Join(cfg, ","), failOn, failAfter)
+	out.Digest = HashOf(outer, errText(hostErr))
 	out.Nontrivial = len(h.Slots) > 0
 	out.stat("slots", int64(len(h.Slots)))
 	out.stat("host_"+h.MT, 1)
